@@ -35,6 +35,23 @@ pub fn privacy_oracle(w: &World, fails: &mut Vec<StepFail>) {
     let mut needles: Vec<(String, String)> = vec![];
     let mut ids: Vec<u64> = vec![0];
     ids.extend(st.flows().iter().map(|(_, id)| id.0));
+    // text a hidden hop shares with a hop that may be shown (two hops at one GeoIP location) is
+    // not a leak where it describes the visible hop ...
+    let mut visible: std::collections::HashSet<String> = std::collections::HashSet::new();
+    for id in &ids {
+        for hop in st.hops_for_flow(FlowId(*id)) {
+            if hop.ttl() > n {
+                for addr in hop.addrs() {
+                    if let Some((sel, ttl)) = decode(*addr) {
+                        visible.extend(tuiworld::secrets(sel, ttl).into_iter().map(|s| s.chars().take(6).collect::<String>()));
+                    }
+                }
+            }
+        }
+    }
+    // ... but the map view prints location text in one place only, the info panel, and that panel
+    // describes the selected hop (or the target): if THAT hop is hidden nothing of it may show
+    let map_panel_of: Option<u8> = (a.show_map && !a.show_help && !a.show_settings).then(|| mc::catch(|| a.selected_hop_or_target().ttl()).unwrap_or(0)).filter(|t| *t != 0 && *t <= n);
     for id in ids {
         for hop in st.hops_for_flow(FlowId(id)) {
             if hop.ttl() == 0 || hop.ttl() > n {
@@ -44,6 +61,9 @@ pub fn privacy_oracle(w: &World, fails: &mut Vec<StepFail>) {
                 if let Some((sel, ttl)) = decode(*addr) {
                     for s in tuiworld::secrets(sel, ttl) {
                         let needle: String = s.chars().take(6).collect();
+                        if visible.contains(&needle) && map_panel_of != Some(hop.ttl()) {
+                            continue;
+                        }
                         needles.push((needle, format!("hop ttl {ttl} ({addr}) secret '{s}'")));
                     }
                 }
@@ -293,7 +313,7 @@ pub fn run(args: &Args) -> i32 {
     rep.set("frames_redrawn_at_other_sizes", json!(redraws));
     rep.set("positive_half_checks", json!(positive));
     rep.set("phases", json!(phases));
-    rep.set("rule", json!("same engine as C17 (real TuiApp/render/Tracer, replayed histories, BFS de-duplicated on the canonical key). Every hop address has a recognisable address, hostname, AS number/name/prefix/registry and GeoIP city/region/country/continent/coordinates/postal code (seeded DNS cache, generated MaxMind fixture). After EVERY draw every row of the TestBackend buffer is searched for the 6-character prefix of every secret of every responding hop with TTL <= n (all flows) and for the source address/hostname. (1) 23-event alphabet (privacy, details, selection, map/chart/flows, address modes, AS toggle, hosts, settings/help, freeze, 4 trace updates) to the depth bound; (1b) three small alphabets (privacy x details, privacy x map/chart, privacy x flows x freeze x clear) searched to depth 10 / 16 towards their fixpoints; (2) 6 AS modes x 4 GeoIP modes x 3 address modes with rotating initial n from a populated multi-flow trace; (3) positive half at 140 columns: hops above n show their address; (4) reached states re-drawn at other sizes with the oracle on each frame. Keyboard half: every expand/contract_privacy step in the search is compared with off -> 0 -> .. -> hop count"));
+    rep.set("rule", json!("same engine as C17 (real TuiApp/render/Tracer, replayed histories, BFS de-duplicated on the canonical key). Every hop address has a recognisable address, hostname, AS number/name/prefix/registry and GeoIP city/region/country/continent/coordinates/postal code (seeded DNS cache, generated MaxMind fixture; hops 3 and 4 share one GeoIP location - text shared with a hop that may be shown is not counted, except in the map view when the info panel describes a hidden hop). After EVERY draw every row of the TestBackend buffer is searched for the 6-character prefix of every secret of every responding hop with TTL <= n (all flows) and for the source address/hostname. (1) 23-event alphabet (privacy, details, selection, map/chart/flows, address modes, AS toggle, hosts, settings/help, freeze, 4 trace updates) to the depth bound; (1b) three small alphabets (privacy x details, privacy x map/chart, privacy x flows x freeze x clear) searched to depth 10 / 16 towards their fixpoints; (2) 6 AS modes x 4 GeoIP modes x 3 address modes with rotating initial n from a populated multi-flow trace; (3) positive half at 140 columns: hops above n show their address; (4) reached states re-drawn at other sizes with the oracle on each frame. Keyboard half: every expand/contract_privacy step in the search is compared with off -> 0 -> .. -> hop count"));
     rep.sample(json!({"config": "as-mode name, geoip long, address both, privacy 2", "history": ["trace0:Path3", "trace0:Branch", "trace0:Path5", "key:toggle_hop_details", "key:next_hop", "key:next_hop_address"]}));
     rep.assumptions = vec!["the user-supplied target in the header/tabs is not a hop and is exempt (DESIGN.md 5.7)".into(), "secrets are recognised by unique 6-character prefixes that are not substrings of any locale string".into()];
     rep.finish()
